@@ -10,7 +10,9 @@ EXPLANATION = (
     "(group/field agreement, Q: n_word' = n + m with m = n_word - n_frac as terms, signedness letters evaluated on the writer's alphabet); R3 both entry points (__init__, resize) "
     "unpack the parser's tuple in order and apply the complex flag, the constructor after the like/template copy; R4 get_dtype refreshes with its argument on every path and the "
     "refresher's notation parameter reaches the selector (config default otherwise); resize refreshes the dtype after the last size write (C02.R5). Nothing of substance is residual; "
-    "utils.get_sizes_from_dtype (fxp_sum's reader) is outside the statement.")
+    "utils.get_sizes_from_dtype (fxp_sum's reader) is outside the statement."
+    ' Added after the third round of seeded changes: no function writes class-level state such as Fxp.template (C20.R7).'
+)
 ASSUMPTIONS = ["str.format renders an int field as its decimal numeral ('-' prefix when negative) (lemma)", "re.match anchors at the start only"]
 TRUSTED = ["CPython ast", "CPython re._parser", "fxlint.regexlang subset construction (< 100 states)"]
 
